@@ -4,6 +4,7 @@ package main
 
 import (
 	"fmt"
+	"math/big"
 
 	"github.com/onflow/crypto"
 )
@@ -73,6 +74,38 @@ func genC12(c *Ctx) {
 		}
 		var nilSeed []byte
 		gen("seed-nil", al.name, al.a, nilSeed)
+	}
+	// public keys of aggregated private keys (incl. an aggregate equal to zero): same bytes as the scalar times the
+	// generator, Equal to the decoded key, and behaving like it (cached flags consistent)
+	idSig := make([]byte, 48)
+	idSig[0] = 0xc0
+	hsh := crypto.NewExpandMsgXOFKMAC128("c12")
+	for i := 0; i < 6; i++ {
+		a, b := c.randScalar(), c.randScalar()
+		if i%2 == 0 {
+			b = new(big.Int).Sub(blsR, a)
+		}
+		sum := new(big.Int).Mod(new(big.Int).Add(a, b), blsR)
+		ans := guard(func() string {
+			agg, err := crypto.AggregateBLSPrivateKeys([]crypto.PrivateKey{skFromInt(a), skFromInt(b)})
+			if err != nil {
+				return "err"
+			}
+			pk1, pk2 := agg.PublicKey(), agg.PublicKey()
+			dec, err := crypto.DecodePublicKey(crypto.BLSBLS12381, pk1.Encode())
+			if err != nil || !pk1.Equals(pk2) || !pk1.Equals(dec) {
+				return "pk-cache-inconsistent"
+			}
+			for _, cand := range [][]byte{idSig, make([]byte, 48)} {
+				v1, _ := pk1.Verify(cand, []byte("m"), hsh)
+				v2, _ := dec.Verify(cand, []byte("m"), hsh)
+				if v1 != v2 {
+					return "cached key behaves differently from the decoded key with the same bytes"
+				}
+			}
+			return "ok " + hx(pk1.Encode())
+		})
+		c.Case("pk-of-aggregated-key", "pk.of 0x"+sum.Text(16), ans)
 	}
 	// mapToFr on many lengths (observed through the BLS key generation only indirectly): public API has no direct entry
 	// public keys of chosen scalars on the three curves are covered by C05 (pk.of / ecdsa pkof)
